@@ -41,7 +41,18 @@ def call_warn(ctx, fn, *a, **kw):
     with warnings.catch_warnings(record=True) as w:
         warnings.simplefilter("always")
         r = ctx.call(fn, *a, **kw)
-    return r, len(w)
+    n = WarnCount(len(w))
+    n.messages = [str(x.message) for x in w]
+    return r, n
+
+
+class WarnCount(int):
+    """Number of warnings, with their texts in .messages."""
+
+    messages = ()
+
+    def claims_nonfinite(self):
+        return [m for m in self.messages if "non-finite" in m or "infinite" in m.lower()]
 
 
 def pair_cases(alphabet, n):
